@@ -630,6 +630,13 @@ example : let y := runSched 1 [[logSetupOp 0 .badLevel, .closeAll], [logSetupOp 
 example : NoRawDelete [logSetupOp 0 .badLevel, logSetupOp 1 .encoderFails, .closeAll] := by
   intro op hop k; simp [logSetupOp] at hop; rcases hop with h | h | h <;> (subst h; simp)
 
+-- non-vacuity (listener glue, whole calls): config 0 and config 1 both listen on address 0, config 1's second
+-- bind is refused: the usage count is 2 = the listeners the configs have open; nobody is inside a call
+example : let y := (runAtomicSys 1 [[listenerOp (.listen 0)],
+      [listenerOp (.listen 0), listenerOp (.listenFails 0)]] [0, 1, 1]).1
+    (y.clean, y.g.pool 0, (y.g.ent 0).refs, holdCount y.threads 0, y.threads.all (fun th => th.pc == .idle))
+      = (true, some 0, 2, 2, true) := by decide
+
 -- the log-writer client: config 0 opens writers 0 and 1, config 1 opens writer 0 and fails to open writer 1;
 -- after config 0 closed its logs (closeAll) config 1 still holds writer 0 alive; after both closed, nothing is left
 example : let y := runSched 2 [[.ln 0 true, .ln 1 true, .closeAll], [.ln 0 true, .ln 1 false]] [0, 0, 0, 1, 1, 0, 0, 0, 0, 0, 0]
